@@ -47,3 +47,44 @@ Proof.
               (empty_qinv ikeq Z.leb k 0)) as (outs & s' & Hrun & _ & _ & Hspec).
   exists outs, s'. split; [exact Hrun|exact Hspec].
 Qed.
+
+(** ** a tie-free history exists (RefineDet.spec_run_det is not vacuous) *)
+From PQV Require Import RefineDet ListProofs.
+
+Notation zal := (alookup ikeq (ihash 0)).
+
+Lemma no_ties_single (e : item * Z) : no_ties ikeq Z.leb (zal [e]).
+Proof.
+  intros j j' a b Ha Hb _ _.
+  apply (alookup_Some_1 ikeq (ihash 0) (ikeq_ok 0)) in Ha as [Ha _], Hb as [Hb _].
+  apply elem_of_list_singleton in Ha, Hb. subst. unfold ikeq. apply Z.eqb_refl.
+Qed.
+
+Lemma no_ties_nil : no_ties ikeq Z.leb (zal ([] : list (item * Z))).
+Proof. intros j j' a b Ha. done. Qed.
+
+Example tie_free_history k :
+  tie_free_run ikeq Z.leb k (zal []) [QPush (1, 0)%Z 5%Z; QPop true; QPop false]
+    [RPrio None; REntry (Some ((1, 0), 5)%Z); REntry None] (zal []).
+Proof.
+  apply (tf_cons ikeq Z.leb k _ _ _ (zal [((1, 0), 5)%Z])).
+  - apply (al_amap_ok_closed ikeq (ihash 0) (ikeq_ok 0)).
+  - apply no_ties_nil.
+  - cbn [spec_step]. split; [done|]. intros j.
+    by rewrite (alookup_cons ikeq (ihash 0) (ikeq_ok 0)).
+  - apply (tf_cons ikeq Z.leb k _ _ _ (zal [])).
+    + apply (al_amap_ok_closed ikeq (ihash 0) (ikeq_ok 0)).
+    + apply no_ties_single.
+    + cbn [spec_step]. eexists. split; [done|]. split_and!.
+      * done.
+      * intros j e' Hj.
+        apply (alookup_Some_1 ikeq (ihash 0) (ikeq_ok 0)) in Hj as [Hj _].
+        apply elem_of_list_singleton in Hj. subst. by destruct (end_of k true).
+      * intros j. rewrite (alookup_cons ikeq (ihash 0) (ikeq_ok 0)).
+        by destruct (ikeq _ j).
+    + apply (tf_cons ikeq Z.leb k _ _ _ (zal [])).
+      * apply (al_amap_ok_closed ikeq (ihash 0) (ikeq_ok 0)).
+      * apply no_ties_nil.
+      * cbn [spec_step]. exists None. done.
+      * constructor.
+Qed.
